@@ -38,7 +38,8 @@ def shapes():
                           attempts=[dict(segments=[[['read']], [['create'], ['commit']], [['raw']]], end='return')]),
         'nested': S(ops=[('create',), ('nest', [['raw']])]),
         # additional shapes
-        'decorator retry': S(form='dec', retry=1, dbr=True, ops=[('delete', 5)]),
+        'decorator retry': dict(form='dec', kind='opt', retry=1, dbr=True,
+                                attempts=[dict(ops=[['delete', 5]], end='return'), dict(ops=[['delete', 6]], end='return')]),
         'raising': S(kind='imm', ops=[('raw', 'insert')], end='other'),
         'explicit rollback': S(ops=[('create',), ('flush',), ('rollback',), ('read',)]),
     }
